@@ -199,8 +199,10 @@ type c18L1Sys struct {
 
 func (y *c18L1Sys) Root() *c16L1State             { return y.inner.Root() }
 func (y *c18L1Sys) Digest(s *c16L1State) [32]byte { return y.inner.Digest(s) }
+type c18Export struct{}
+
 func (y *c18L1Sys) Letters(s *c16L1State) []engine.Letter {
-	return y.inner.Letters(s)
+	return append(y.inner.Letters(s), engine.Letter{Name: "ExportGenesis", Data: c18Export{}})
 }
 func (y *c18L1Sys) Check(s *c16L1State) *engine.Violation { return nil }
 
@@ -223,10 +225,40 @@ func (y *c18L1Sys) Step(s *c16L1State, l engine.Letter) (*c16L1State, string, *e
 		}
 		return c, o, v
 	}
+	tw := y.twin(s.w)
+	if _, isExport := l.Data.(c18Export); isExport {
+		v := c18Compare(y.st, l.Name, func(kind string) c18Obs {
+			w, ctx := s.w, s.ctx
+			if kind == "twin" {
+				tctx, _ := tw.Ctx.CacheContext()
+				tctx = tctx.WithBlockHeight(s.ctx.BlockHeight()).WithBlockTime(s.ctx.BlockTime())
+				world.CopyState(s.ctx, s.w.StoreKeys, tctx, tw.StoreKeys)
+				w, ctx = tw, tctx
+			}
+			var o c18Obs
+			func() {
+				defer func() {
+					if r := recover(); r != nil {
+						o.err = fmt.Sprintf("panic: %v", r)
+					}
+				}()
+				bz, err := w.Enc.Marshaler.MarshalJSON(w.HK.ExportGenesis(ctx))
+				if err != nil {
+					o.err = err.Error()
+				}
+				o.resp = string(bz)
+			}()
+			return o
+		})
+		c := &c16L1State{ctx: s.ctx, w: s.w, nbr: s.nbr, depth: s.depth + 1}
+		if v != nil {
+			return c, "x", v
+		}
+		return c, "exported", nil
+	}
 	op := l.Data.(c16L1Op)
 	var kept sdk.Context
 	var keptOK bool
-	tw := y.twin(s.w)
 	run := func(kind string, limit int64) (c18Obs, sdk.Context, bool) {
 		deliver := func(w *world.L1, ctx sdk.Context, m sdk.Msg) world.DeliverResult {
 			if limit >= 0 {
@@ -416,6 +448,8 @@ func (y *c18L2Sys) ops() []c18L2Op {
 		{"UpdateOracle(3 voters, two also price an untracked pair)", nil, "oracle-untracked"},
 		// …and votes that price the untracked pair instead of one of the tracked ones (no more ids than the chain tracks)
 		{"UpdateOracle(3 voters, two price an untracked pair in place of a tracked one)", nil, "oracle-untracked-few"},
+		// the exported genesis is a response like any other (a restarted network is built from it)
+		{"ExportGenesis", nil, "export"},
 		{"RegisterPlan(h,o3,k3)", nil, "plan"},
 		{"NextBlock", nil, "block"},
 	}
@@ -515,6 +549,19 @@ func (y *c18L2Sys) Step(s *c18L2State, l engine.Letter) (*c18L2State, string, *e
 			ctx = n
 			o = c18Obs{err: e, extra: ups}
 			ok = e == ""
+		case "export":
+			func() {
+				defer func() {
+					if r := recover(); r != nil {
+						o.err = fmt.Sprintf("panic: %v", r)
+					}
+				}()
+				bz, err := w.Enc.Marshaler.MarshalJSON(w.K.ExportGenesis(ctx))
+				if err != nil {
+					o.err = err.Error()
+				}
+				o.resp, ok = string(bz), err == nil
+			}()
 		}
 		o.dump = dumpHash(ctx, w)
 		return o, ctx, ok
@@ -530,7 +577,7 @@ func (y *c18L2Sys) Step(s *c18L2State, l engine.Letter) (*c18L2State, string, *e
 	if v != nil {
 		return c, "x", v
 	}
-	if op.kind != "block" && s.depth <= y.sweep {
+	if op.kind != "block" && op.kind != "export" && s.depth <= y.sweep {
 		d := y.Digest(s)
 		key := string(d[:]) + l.Name
 		sv, done := y.swept.Load(key)
